@@ -479,6 +479,14 @@ def _b_round(I, a, k):
         frac = t - z3.ToReal(fl)
         r = z3.If(frac < 0.5, fl, z3.If(frac > 0.5, fl + 1, z3.If(fl % 2 == 0, fl, fl + 1)))
         return Sym(INT, r)
+    if isinstance(v, Sym) and v.kind in (REAL, INT) and len(a) == 2 and isinstance(a[1], int) and 0 <= a[1] <= 6:
+        # round(x, n): round-half-even of x * 10^n, divided by 10^n (binary float representation error not modelled)
+        sc = 10 ** a[1]
+        t = I.term(v, REAL) * sc
+        fl = z3.ToInt(t)
+        frac = t - z3.ToReal(fl)
+        r = z3.If(frac < 0.5, fl, z3.If(frac > 0.5, fl + 1, z3.If(fl % 2 == 0, fl, fl + 1)))
+        return Sym(REAL, z3.ToReal(r) / sc)
     raise Unsupported('round on symbolic with ndigits')
 
 
